@@ -41,6 +41,10 @@ def _bit_test(c):
             a, b = b, a
         if b == ("const", 1) and a[0] == "bin" and a[1] == ">>":
             return a[2], a[3]
+        # X & (1 << E)
+        for x, m in ((c[2], c[3]), (c[3], c[2])):
+            if m[0] == "bin" and m[1] == "<<" and m[2] == ("const", 1):
+                return x, m[3]
     return None
 
 
